@@ -213,16 +213,20 @@ def flist_coq(fl):
 # --------------------------------------------------------------------------
 # population generator
 
-def uuid4(rng):
+def uuid4(rng, ver="4", variant="89ab"):
+    """RFC 4122 text with the given version nibble and a variant nibble out of `variant`."""
     h = [rng.choice(HEX) for _ in range(32)]
-    h[12] = "4"
-    h[16] = rng.choice("89ab")
+    h[12] = ver
+    h[16] = rng.choice(variant)
     s = "".join(h)
     return "%s-%s-%s-%s-%s" % (s[:8], s[8:12], s[12:16], s[16:20], s[20:])
 
 
 LABELS = ["a", "ab", "abc", "threat", "threat-report", "x", "Report"]
 NAMES = ["alpha", "alph", "beta", "alpha beta", "", "ALPHA", "gamma-1", "\u00e9t\u00e9", "z"]
+# text shapes and lengths on both sides of plausible bounds (chosen now and then)
+ODD_NAMES = ["a", "q" * 255, "q" * 256, "say \"hi\"", "back\\slash", "del\x7fete", "astral \U0001f600 \U00010000", "multi__under--hyphen",
+             "\uffff", "tab\there"]
 OFFSETS = [0, 1, 999, 1000, 1001, 250000, 500000, 999999, 1000000, 1500000, 60 * 10 ** 6, 3600 * 10 ** 6, 86400 * 10 ** 6]
 STYLES = ["min", "s", "ms", "us"]
 CUSTOM_TYPES = ["x-foo", "x-tool", "x-foo-bar"]
@@ -232,9 +236,18 @@ class Ctx:
     def __init__(self, rng):
         self.rng = rng
         self.base = 1577836800 * 10 ** 6 + rng.randrange(0, 400) * 86400 * 10 ** 6
-        self.identity_ids = ["identity--" + uuid4(rng) for _ in range(2)]
-        self.marking_ids = ["marking-definition--" + uuid4(rng) for _ in range(2)]
+        self.vers = {}
+        self.identity_ids = ["identity--" + self.uid("identity") for _ in range(2)]
+        self.marking_ids = ["marking-definition--" + self.uid("marking-definition") for _ in range(2)]
         self.sdo_ids = []
+
+    def uid(self, typ, loose=False):
+        """The UUID part of an id of this type.  All ids of one type in a population share the UUID version
+        (mostly 4, sometimes 1, 3, 5, 6, 7, 8: a 2.1 id needs the RFC 4122 variant only); ids of dictionary-kept
+        types sometimes carry another variant nibble."""
+        ver = self.vers.setdefault(typ, self.rng.choice("4444444135678"))
+        variant = HEX if (loose and self.rng.random() < 0.15) else "89ab"
+        return uuid4(self.rng, ver, variant)
 
     def instant(self):
         return self.base + self.rng.choice(OFFSETS)
@@ -263,7 +276,19 @@ def ext_ref(rng):
 def custom_props(rng, ctx, allow_null):
     kv = []
     if rng.random() < 0.5:
-        kv.append(("x_num", rng.choice([I(0), I(1), I(-3), I(7), Fl(1024), Fl(512), Fl(7 * 1024 + 256), Fl(-1)])))
+        kv.append(("x_num", rng.choice([I(0), I(1), I(-3), I(7), Fl(1024), Fl(512), Fl(7 * 1024 + 256), Fl(-1),
+                                        Fl(0), Fl(7 * 1024), I(2 ** 53 + 1), Fl(2 ** 53 * 1024), I(10 ** 21), I(-(10 ** 21) - 1)])))
+    if rng.random() < 0.06:
+        # nesting depth on both sides of plausible bounds: x_deep.a.a....a = "leaf"
+        node = S("leaf")
+        for _ in range(rng.choice([1, 2, 9, 10, 11, 63, 64, 65])):
+            node = D([("a", node)])
+        kv.append(("x_deep", node))
+    if rng.random() < 0.2:
+        # a list as the LAST step of a path below a dictionary (strings and numbers)
+        kv.append(("x_meta", D([("tags", L(S(x) for x in rng.sample(LABELS, rng.randrange(0, 4)))),
+                                ("nums", L(I(x) for x in rng.sample([0, 1, 2, 50], rng.randrange(1, 3)))),
+                                ("sub", D([("tags", L([S("a"), S("threat")]))]))])))
     if rng.random() < 0.35:
         kv.append(("x_obj", D([("a", D([("b", L([I(1), I(2)])), ("c", S("deep"))])), ("c", S(rng.choice(["str", "deep"])))])))
     if rng.random() < 0.35:
@@ -302,7 +327,7 @@ def sdo_common(rng, ctx, has_name=True):
 
 def versions(rng, ctx, typ, fixed, make_var, n_versions, ident=None):
     """n versions of one versioned SDO: same id/created, distinct modified instants."""
-    ident = ident or typ + "--" + uuid4(rng)
+    ident = ident or typ + "--" + ctx.uid(typ)
     created = ctx.base
     mods = rng.sample(OFFSETS, n_versions)
     out = []
@@ -318,7 +343,7 @@ def versions(rng, ctx, typ, fixed, make_var, n_versions, ident=None):
 
 def gen_identity(rng, ctx, nv, ident=None):
     def var():
-        kv = [("name", S(rng.choice(NAMES)))]
+        kv = [("name", S(rng.choice(ODD_NAMES) if rng.random() < 0.12 else rng.choice(NAMES)))]
         if rng.random() < 0.6:
             kv.append(("identity_class", S(rng.choice(["individual", "organization", "group"]))))
         if rng.random() < 0.3:
@@ -368,7 +393,7 @@ def gen_location(rng, ctx, nv):
 
 def gen_relationship(rng, ctx, nv):
     src = rng.choice(ctx.identity_ids)
-    tgt = "malware--" + uuid4(rng)
+    tgt = "malware--" + ctx.uid("malware")
     def var():
         kv = [("relationship_type", S(rng.choice(["uses", "targets", "related-to"]))), ("source_ref", S(src)), ("target_ref", S(tgt))]
         if rng.random() < 0.4:
@@ -378,7 +403,7 @@ def gen_relationship(rng, ctx, nv):
 
 
 def gen_file(rng, ctx):
-    kv = [("type", S("file")), ("spec_version", S("2.1")), ("id", S("file--" + uuid4(rng))),
+    kv = [("type", S("file")), ("spec_version", S("2.1")), ("id", S("file--" + ctx.uid("file"))),
           ("name", S(rng.choice(["a.exe", "b.dll", "a.ex", "readme"]))), ("defanged", B(False))]
     if rng.random() < 0.7:
         kv.append(("size", I(rng.choice([0, 1, 1024, 4096, 4097]))))
@@ -394,13 +419,13 @@ def gen_file(rng, ctx):
 
 
 def gen_ipv4(rng, ctx):
-    kv = [("type", S("ipv4-addr")), ("spec_version", S("2.1")), ("id", S("ipv4-addr--" + uuid4(rng))),
+    kv = [("type", S("ipv4-addr")), ("spec_version", S("2.1")), ("id", S("ipv4-addr--" + ctx.uid("ipv4-addr"))),
           ("value", S(rng.choice(["10.0.0.1", "10.0.0.10", "192.168.1.1"]))), ("defanged", B(rng.random() < 0.2))]
     return [{"tree": D(kv), "reg": True, "flags": []}]
 
 
 def gen_marking(rng, ctx, ident=None):
-    kv = [("type", S("marking-definition")), ("spec_version", S("2.1")), ("id", S(ident or "marking-definition--" + uuid4(rng))),
+    kv = [("type", S("marking-definition")), ("spec_version", S("2.1")), ("id", S(ident or "marking-definition--" + ctx.uid("marking-definition"))),
           ("created", ctx.ts()), ("definition_type", S("statement")),
           ("definition", D([("statement", S(rng.choice(["Copyright 2020", "internal", "alpha"])))]))]
     if rng.random() < 0.4:
@@ -412,7 +437,7 @@ def gen_custom(rng, ctx, nv, outside=False):
     """An unregistered custom type: the stores keep the dictionary as it is."""
     typ = rng.choice(CUSTOM_TYPES)
     flags = []
-    ident = typ + "--" + uuid4(rng)
+    ident = typ + "--" + ctx.uid(typ, loose=True)
     if outside:
         how = rng.choice(["prefix", "nonuuid", "upper"])
         if how == "prefix":
@@ -423,7 +448,7 @@ def gen_custom(rng, ctx, nv, outside=False):
             ident = typ + "--" + rng.choice(["not-a-uuid-" + hexstr(rng, 6), hexstr(rng, 32), str(rng.randrange(1, 10 ** 9))])
             flags = ["nonuuid"]
         else:
-            ident = typ + "--" + uuid4(rng).upper()        # still matches the (case-insensitive) pattern
+            ident = typ + "--" + ctx.uid(typ, loose=True).upper()        # still matches the (case-insensitive) pattern
     versioned = rng.random() < 0.75
     mods = rng.sample(OFFSETS, nv if versioned else 1)
     out = []
@@ -534,7 +559,7 @@ def perturb(rng, v):
         m = re.match(r"^(\d{4}-\d\d-\d\dT\d\d:\d\d:\d\d)(\.\d+)?Z$", v)
         if m:
             # same second, other fraction / spelling
-            return m.group(1) + rng.choice(["Z", ".0Z", ".000Z", ".5Z", ".000001Z", ".25Z", ".999999Z", ".001Z"])
+            return m.group(1) + rng.choice(["Z", ".0Z", ".000Z", ".5Z", ".000001Z", ".25Z", ".999999Z", ".001Z", ".250Z", ".1234567Z", ".0000001Z"])
         return rng.choice([v + "x", v[:-1], v.upper(), "a" + v, v[1:]]) if v else "x"
     if isinstance(v, dict):
         if "$f" in v and len(v) == 1:
@@ -550,7 +575,7 @@ def perturb(rng, v):
 
 
 WRONG = [0, 1, True, "alpha", "2020-01-01T00:00:00Z", {"$f": 512}, {"$t": 1577836800000000}, ["a", 1], {"k": "v"}, "", "not-a-timestamp",
-         "2020-02-30T00:00:00Z", 5]
+         "2020-02-30T00:00:00Z", 5, "0999-12-31T23:59:59Z", "0001-01-01T00:00:00.000001Z", "9999-12-31T23:59:59.999999Z", 0, True, {"$f": 0}]
 
 
 def type_ok_value(v):
@@ -579,6 +604,11 @@ def gen_tyid_filter(rng, pop, strict):
         op, v = "!=", rng.choice(pool)
     elif r < 0.90:
         op, v = "in", [rng.choice(pool) for _ in range(rng.choice([0, 1, 1, 2, 2, 3, 5]))]
+        if rng.random() < 0.04:
+            # sizes on both sides of plausible bounds; mostly values nothing has, a few that exist
+            n = rng.choice([9, 10, 11, 63, 64, 65, 100, 101, 255, 256])
+            v = [(rng.choice(pool) if rng.random() < 0.05 else ("campaign--" if prop == "id" else "x-none-") + hexstr(rng, 6))
+                 for _ in range(n)]
     else:
         op, v = rng.choice(["<", ">", "<=", ">=", "contains"]), rng.choice(pool)
         if op == "contains" and rng.random() < 0.5:
@@ -688,7 +718,7 @@ def gen_filter_list(rng, pop, paths, hist, strict):
     return fl
 
 
-SPEC_KEYS = ("q", "att", "att2", "comp", "wrap", "bare", "none", "fset")
+SPEC_KEYS = ("q", "att", "att2", "comp", "wrap", "bare", "none", "fset", "kw")
 
 
 def split_routes(rng, fl):
@@ -744,6 +774,8 @@ def gen_case(rng, size, n_queries, outside):
                 s["att2"] = [gen_prop_filter(rng, paths, hist) for _ in range(rng.choice([0, 1, 1, 2]))]
             queries.append(s)
     for s in queries:
+        if rng.random() < 0.3:
+            s["kw"] = True                  # source.query(query=...) instead of source.query(...)
         # the query argument as a FilterSet object (the same object is handed to every route in turn)
         if not s.get("bare") and not s.get("none") and rng.random() < 0.35:
             s["fset"] = True
@@ -1242,6 +1274,17 @@ def oracle_case(case, impl, viol, stats, om, model_q=None, mode="TextOnDicts"):
                     "%s route: result of the conjunction is not the intersection of the results of its parts" % route,
                     {"kind": "law", "pop": [to_json(o["tree"]) for o in pop], "split": k, "route": route,
                      "a": spa["q"] + spa["att"] + spa["comp"], "b": spb["q"] + spb["att"] + spb["comp"]}))
+    for qi, (spec, first, again) in enumerate(zip(case["queries"], impl["queries"], impl.get("queries_again", []))):
+        for route in ("mo", "fs"):
+            stats["asked_twice"] = stats.get("asked_twice", 0) + 1
+            if first[route] != again[route]:
+                viol.append(Violation(
+                    "%s route: the same query %s asked a second time (after the other queries, the lookups and the growing "
+                    "stores) is answered %s, the first time %s" % (route, json.dumps(spec["q"] + spec["att"] + spec["comp"]),
+                                                                 again[route][:200], first[route][:200]),
+                    {"kind": "twice", "symlinks": case.get("symlinks"), "pop": [to_json(o["tree"]) for o in pop], "split": k,
+                     "queries": [{kk: s2[kk] for kk in SPEC_KEYS if kk in s2} for s2 in case["queries"]], "gets": case["gets"],
+                     "grow": case.get("grow"), "query": qi, "route": route}))
     oracle_gets(case, impl, viol, stats, model_q[len(case["queries"]):] if model_q is not None else None,
                 vals, vals_text, flagged, flagged_fs2, om, mode)
 
@@ -1541,6 +1584,72 @@ def compare(case, impl, model, dis, improved, scan_raises):
     return n
 
 
+ENV_VARIANTS = [{"TZ": "JST-9"}, {"TZ": "EST5EDT"}, {"PYTHONHASHSEED": "1"}, {"TZ": "UTC+3:30", "PYTHONHASHSEED": "4711"}]
+
+
+def run_impl_env(cases, env_extra):
+    """The worker in a fresh interpreter under another process environment (time zone, hash seed)."""
+    import subprocess
+    env = common.impl_env()
+    env.update(env_extra)
+    script = os.path.join(common.VERIF, "harness", "impl", "c12_impl.py")
+    inp = "\n".join(json.dumps(c) for c in cases) + "\n"
+    p = subprocess.run([common.PY, script], input=inp, stdout=subprocess.PIPE, stderr=subprocess.PIPE, text=True, env=env,
+                       timeout=1800, cwd=common.scratch())
+    if p.returncode != 0:
+        raise RuntimeError("worker failed under %s:\n%s" % (env_extra, p.stderr[-2000:]))
+    return [json.loads(l) for l in p.stdout.split("\n") if l.strip()]
+
+
+def env_differences(base, other):
+    """Where do the answers of two runs of one case differ?  Memory routes exactly; routes through the filesystem
+    as multisets (directory order and set order may legitimately differ between two processes)."""
+    out = []
+    for qi, (a, b) in enumerate(zip(base.get("queries", []), other.get("queries", []))):
+        for route in ("mo", "md", "fs", "c2"):
+            if not same_line(route, a[route], b[route]):
+                out.append(("query", qi, route, a[route][:200], b[route][:200]))
+        if a.get("qarg_changed") != b.get("qarg_changed"):
+            out.append(("query", qi, "qarg_changed", a.get("qarg_changed"), b.get("qarg_changed")))
+    for gi, (a, b) in enumerate(zip(base.get("gets", []), other.get("gets", []))):
+        for route in GET_ROUTES:
+            for j, op in ((0, "get"), (1, "all_versions")):
+                if not same_line("mo" if route in ("mo", "cmo") else "fs", a[route][j], b[route][j]):
+                    out.append((op, gi, route, a[route][j][:200], b[route][j][:200]))
+    for si, (a, b) in enumerate(zip(base.get("grow") or [], other.get("grow") or [])):
+        for qi, (x, y) in enumerate(zip(a["queries"], b["queries"])):
+            if x["mem"] != y["mem"] or not same_line("fs", x["fs"], y["fs"]):
+                out.append(("grow", si, qi, (x["mem"] + " / " + x["fs"])[:200], (y["mem"] + " / " + y["fs"])[:200]))
+    if base.get("build", {}).get("parsed_kinds") != other.get("build", {}).get("parsed_kinds") or \
+            base.get("echo", {}).get("mo") != other.get("echo", {}).get("mo") or base.get("echo", {}).get("fs") != other.get("echo", {}).get("fs"):
+        out.append(("echo", 0, "stores", str(base.get("echo", {}).get("mo")), str(other.get("echo", {}).get("mo"))))
+    return out
+
+
+def environment_step(run, cases, impl):
+    """A share of the cases once more in fresh interpreters under other time zones / another hash seed: the answers
+    must be those of the default run."""
+    picked = [i for i in range(len(cases)) if i % 7 == 3 and "queries" in impl[i]][:16]
+    n = 0
+    for vi, env_extra in enumerate(ENV_VARIANTS):
+        mine = picked[vi::len(ENV_VARIANTS)]
+        if not mine:
+            continue
+        try:
+            res = run_impl_env([case_json(cases[i]) for i in mine], env_extra)
+        except Exception as e:      # noqa: BLE001
+            run.broken.append(Broken("correspondence", "worker under %s" % env_extra, {"error": str(e)[-1500:]}))
+            continue
+        for i, r in zip(mine, res):
+            n += 1
+            for d in env_differences(impl[i], r)[:2]:
+                run.violations.append(Violation(
+                    "under the process environment %s the answer differs from the default run: %s %s %s: default %s, here %s" % (
+                        (env_extra,) + d),
+                    {"kind": "env", "env": env_extra, "case": case_json(cases[i]), "where": list(d[:3])}))
+    run.coverage["environment_variants"] = {"variants": ENV_VARIANTS, "cases_rerun": n}
+
+
 def source_step(run):
     """translators/tr_filters.py -> Gen/FilterFacts.v -> Props/C12Src.v (call inside common.Lock()).  Returns the
     choices read from the source text, or None when the translator aborted (the obligations then count as
@@ -1646,6 +1755,7 @@ def check(run):
     if echo_bad:
         run.broken.append(Broken("correspondence", "population echo (what the stores hold vs the generated typed trees)",
                                  {"first": echo_bad[:3], "count": len(echo_bad)}))
+    environment_step(run, cases, impl)
     good = [(c, r) for c, r in zip(cases, impl) if "queries" in r]
     # model
     dis = []
@@ -1678,9 +1788,17 @@ def check(run):
     stats = {"judged": 0, "undefined": 0, "laws": 0, "get_answers": 0, "gets_undefined": 0, "outside_layout_hypothesis": 0}
     grow_cmp = 0
     for gi, (c, r) in enumerate(good):
-        oracle_case(c, r, run.violations, stats, om, model[gi] if model is not None else None, mode)
         grow_dis = []
-        grow_cmp += judge_grow(c, r, model[gi] if model is not None else None, run.violations, grow_dis, stats, mode)
+        try:
+            oracle_case(c, r, run.violations, stats, om, model[gi] if model is not None else None, mode)
+            grow_cmp += judge_grow(c, r, model[gi] if model is not None else None, run.violations, grow_dis, stats, mode)
+        except Exception as e:      # noqa: BLE001 -- the oracle must never crash the check: the case is reported instead
+            import traceback
+            run.violations.append(Violation(
+                "the reference evaluation failed on a generated case (%s: %s) -- the case is kept for replay" % (type(e).__name__, e),
+                {"kind": "twice", "symlinks": c.get("symlinks"), "pop": [to_json(o["tree"]) for o in c["pop"]], "split": c["split"],
+                 "queries": [{kk: s2[kk] for kk in SPEC_KEYS if kk in s2} for s2 in c["queries"]], "gets": c["gets"],
+                 "grow": c.get("grow"), "query": 0, "route": "mo", "oracle_error": traceback.format_exc()[-1500:]}))
         dis.extend(grow_dis)
         for s in c["queries"]:
             fl = s["q"] + s["att"] + s.get("att2", []) + s["comp"]
@@ -1793,6 +1911,31 @@ def replay(payload):
             if r.get("op") == "get" and not (get_line == "NONE" or (get_line.startswith("ONE ") and get_line[4:] in expect)):
                 bad = True
         if bad:
+            print("VIOLATION property=C12 replay=(given)")
+            return 1
+        print("no violation on this input")
+        return 0
+    if r.get("kind") == "env":
+        base = common.run_impl("c12_impl", [r["case"]], procs=1)[0]
+        other = run_impl_env([r["case"]], r["env"])[0]
+        diffs = env_differences(base, other)
+        print("replay under %s against the default environment: %d differences" % (r["env"], len(diffs)))
+        for d in diffs[:3]:
+            print("  %s %s %s: default %s, there %s" % d)
+        if diffs:
+            print("VIOLATION property=C12 replay=(given)")
+            return 1
+        print("no violation on this input")
+        return 0
+    if r.get("kind") == "twice":
+        case = {kk: r.get(kk) for kk in ("pop", "split", "queries", "gets", "grow", "symlinks")}
+        res = common.run_impl("c12_impl", [case], procs=1)[0]
+        if "queries" not in res:
+            print("replay: could not build the stores: %s" % res["build"])
+            return 1
+        a, b = res["queries"][r["query"]][r["route"]], res["queries_again"][r["query"]][r["route"]]
+        print("replay: query %d on route %s, first: %s ; asked again after the rest of the session: %s" % (r["query"], r["route"], a[:200], b[:200]))
+        if a != b:
             print("VIOLATION property=C12 replay=(given)")
             return 1
         print("no violation on this input")
